@@ -214,6 +214,23 @@ def instantiate_at_skolems(hyps, goal, cap=16):
     return out
 
 
+def _has_quant(e, _cache={}):
+    seen, stack = set(), [e]
+    while stack:
+        x = stack.pop()
+        i = x.get_id()
+        if i in seen:
+            continue
+        seen.add(i)
+        if z3.is_quantifier(x):
+            if not x.is_lambda():
+                return True
+            stack.append(x.body())
+        elif z3.is_app(x):
+            stack.extend(x.children())
+    return False
+
+
 def discharge(obl, timeout_ms=10000, want_model=True, use_cvc5=True):
     """-> Result.  status: discharged | failed (counter-model) | unknown | canary-ok | canary-vacuous"""
     t0 = time.time()
@@ -246,9 +263,12 @@ def discharge(obl, timeout_ms=10000, want_model=True, use_cvc5=True):
         return Result(obl.name, "canary-ok", "z3", dt, **common)
     # staged: a short default attempt, then the nonlinear tactic (each wins on some goals), then cvc5, then the
     # default solver with the full budget
-    s, r = run(tmo=max(500, timeout_ms // 5))
+    quantified = any(_has_quant(f) for f in fs)
+    # quantified obligations (E-matching) gain nothing from the nonlinear tactic: they get the full budget in the first attempt, so that a loaded
+    # machine does not push a 3-second proof through two useless stages
+    s, r = run(tmo=timeout_ms if quantified else max(500, timeout_ms // 5))
     backend = "z3"
-    if r == z3.unknown:
+    if r == z3.unknown and not quantified:
         try:
             s2, r2 = run("qfnra-nlsat", tmo=max(1000, timeout_ms // 2))
             if r2 != z3.unknown:
@@ -261,7 +281,7 @@ def discharge(obl, timeout_ms=10000, want_model=True, use_cvc5=True):
             backend = "cvc5"
             r = z3.sat if r3 == "sat" else z3.unsat
             s = None
-    if r == z3.unknown:
+    if r == z3.unknown and not quantified:
         s, r = run()
         backend = "z3"
     dt = time.time() - t0
